@@ -1193,6 +1193,9 @@ impl ElementRaw {
         }
         self.content.clear();
         self.parent = ElementOrModel::None;
+        // a removed element is not a member of any file; otherwise file_membership(), min_version() and the
+        // create_*() functions would still succeed on a removed element that had its own file membership
+        self.file_membership.clear();
     }
 
     /// set the character data of this element
